@@ -56,9 +56,48 @@ def finFs : List (Name × PValue) → Bool
   | (_, v) :: fs => finV v && finFs fs
 end
 
-/-- `pr` is a `value` pair from which the tree builder computes `v` (at any sufficient fuel) -/
+/-- what the tree builder makes of a pair that denotes `v`: the stored form, or a number error
+    when some float literal in `v` denotes the infinite double -/
+def expV (v : PValue) : Except PErr PValue := if finV v then .ok (normV v) else .error .number
+def expVs (vs : List PValue) : Except PErr (List PValue) := if finVs vs then .ok (normVs vs) else .error .number
+def expFs (fs : List (Name × PValue)) : Except PErr (List (Name × PValue)) :=
+  if finFs fs then .ok (normFs fs) else .error .number
+
+theorem expV_fin {v : PValue} (h : finV v = true) : expV v = .ok (normV v) := by simp [expV, h]
+theorem expV_inf {v : PValue} (h : finV v = false) : expV v = .error .number := by simp [expV, h]
+theorem expVs_fin {vs : List PValue} (h : finVs vs = true) : expVs vs = .ok (normVs vs) := by simp [expVs, h]
+theorem expVs_inf {vs : List PValue} (h : finVs vs = false) : expVs vs = .error .number := by simp [expVs, h]
+theorem expFs_fin {fs : List (Name × PValue)} (h : finFs fs = true) : expFs fs = .ok (normFs fs) := by
+  simp [expFs, h]
+theorem expFs_inf {fs : List (Name × PValue)} (h : finFs fs = false) : expFs fs = .error .number := by
+  simp [expFs, h]
+
+theorem expVs_nil : expVs [] = .ok [] := rfl
+theorem expFs_nil : expFs [] = .ok [] := rfl
+
+/-- the expected result for a list is that of `mapM` over the expected results of its elements:
+    the first error stops it, and every error is the number error -/
+theorem expVs_cons (v : PValue) (vs : List PValue) :
+    expVs (v :: vs) = (expV v).bind (fun x => (expVs vs).bind (fun xs => .ok (x :: xs))) := by
+  cases h1 : finV v <;> cases h2 : finVs vs <;> simp [expVs, expV, finVs, normVs, h1, h2, Except.bind]
+
+theorem expFs_cons (n : Name) (v : PValue) (fs : List (Name × PValue)) :
+    expFs ((n, v) :: fs) =
+      ((expV v).map (fun x => (n, x))).bind (fun x => (expFs fs).bind (fun xs => .ok (x :: xs))) := by
+  cases h1 : finV v <;> cases h2 : finFs fs <;>
+    simp [expFs, expV, finFs, normFs, h1, h2, Except.bind, Except.map]
+
+theorem expV_list (vs : List PValue) : expV (.list vs) = (expVs vs).map .list := by
+  cases h : finVs vs <;> simp [expV, expVs, finV, normV, h, Except.map]
+
+theorem expV_obj (fs : List (Name × PValue)) :
+    expV (.obj fs) = (expFs fs).map (fun fs => .obj (indexMapCollect fs)) := by
+  cases h : finFs fs <;> simp [expV, expFs, finV, normV, h, Except.map]
+
+/-- `pr` is a `value` pair from which the tree builder computes `v` (at any sufficient fuel), or
+    reports the number error exactly when `v` contains an infinite float -/
 def Builds (s₀ : List Char) (pr : Pair) (v : PValue) : Prop :=
-  ∀ bf, s₀.length - pr.start < bf → buildValue (envOf s₀) bf pr = .ok (normV v)
+  ∀ bf, s₀.length - pr.start < bf → buildValue (envOf s₀) bf pr = expV v
 
 -- ------------------------------------------------------------------ scalars
 
@@ -67,7 +106,7 @@ theorem build_variable (s₀ : List Char) (vn : String) (q q1 q2 k : Nat) (t1 : 
   intro bf hbf
   obtain ⟨bf, rfl⟩ : ∃ b, bf = b + 1 := ⟨bf - 1, by omega⟩
   have ha := asStr_at h k "name" []
-  simp [buildValue, Pair.inner, Pair.rule, innerName, envOf, normV] at ha ⊢
+  simp [buildValue, Pair.inner, Pair.rule, innerName, envOf, normV, expV, finV] at ha ⊢
   rw [ha]; rfl
 
 theorem build_boolean (s₀ : List Char) (vn : String) (q k : Nat) (t : List Char) (h : At s₀ q t) :
@@ -75,14 +114,14 @@ theorem build_boolean (s₀ : List Char) (vn : String) (q k : Nat) (t : List Cha
   intro bf hbf
   obtain ⟨bf, rfl⟩ : ∃ b, bf = b + 1 := ⟨bf - 1, by omega⟩
   have ha := asStr_at h k "boolean" []
-  simp [buildValue, Pair.inner, Pair.rule, envOf, normV] at ha ⊢
+  simp [buildValue, Pair.inner, Pair.rule, envOf, normV, expV, finV] at ha ⊢
   rw [ha]
 
 theorem build_null (s₀ : List Char) (vn : String) (q q2 : Nat) (hq : q < q2) :
     Builds s₀ (Pair.mk vn q q2 [Pair.mk "null" q q2 []]) .null := by
   intro bf hbf
   obtain ⟨bf, rfl⟩ : ∃ b, bf = b + 1 := ⟨bf - 1, by omega⟩
-  simp [buildValue, Pair.inner, Pair.rule, normV]
+  simp [buildValue, Pair.inner, Pair.rule, normV, expV, finV]
 
 theorem build_enum (s₀ : List Char) (vn : String) (q k : Nat) (t : List Char) (h : At s₀ q t) (hk : 0 < k) :
     Builds s₀ (Pair.mk vn q (q + k) [Pair.mk "enum_value" q (q + k) [Pair.mk "name" q (q + k) []]])
@@ -90,7 +129,7 @@ theorem build_enum (s₀ : List Char) (vn : String) (q k : Nat) (t : List Char) 
   intro bf hbf
   obtain ⟨bf, rfl⟩ : ∃ b, bf = b + 1 := ⟨bf - 1, by omega⟩
   have ha := asStr_at h k "name" []
-  simp [buildValue, Pair.inner, Pair.rule, innerName, envOf, normV] at ha ⊢
+  simp [buildValue, Pair.inner, Pair.rule, innerName, envOf, normV, expV, finV] at ha ⊢
   rw [ha]; rfl
 
 -- ------------------------------------------------------------------ integers
@@ -195,7 +234,7 @@ theorem build_int (s₀ : List Char) (vn : String) (q : Nat) (t rest ds : List C
     rw [hl2, e1, List.take_left']
     rfl
   rw [hk] at ha
-  simp [buildValue, Pair.inner, Pair.rule, envOf, normV] at ha ⊢
+  simp [buildValue, Pair.inner, Pair.rule, envOf, normV, expV, finV] at ha ⊢
   rw [ha]
   exact parseNumber_int neg ds e2 e3
 end AGV.Lemmas.PegX
